@@ -27,6 +27,14 @@ ASSUMPTIONS = [
     "WebTransport/blocked state initially; stated for the code with docs/C14-fix-1.patch and C14-fix-2.patch applied",
     "the normal form compared is: headers, push promises, body bytes (adjacent data events merged, empty ones dropped) "
     "and one end-of-stream marker per stream",
+    "chunking_independent_uni*, chunking_independent_uni_connection_level: hypotheses on pylsqpack ds_seq / enc_seq "
+    "(feeding x ++ y to the decoder / encoder stream = feeding x, then y), FIN only off the control stream, the decoder "
+    "never reports the stream being delivered itself as unblocked; stream invariant uinv / stream_ok (true of a new "
+    "stream, kept by every delivery)",
+    "interleaving_independent_headers / _push_promise: stated for the code with C14-fix-1..3 (all in /repo); the blocked "
+    "frame is the first thing of its delivery on a stream that is new or between two frames; one blocked stream, one "
+    "encoder-stream delivery; the decoder is deterministic in its input history: resume_header after the encoder data "
+    "arrived returns what feed_header returns once the data is known (o_resume = o_dec), and that is not StreamBlocked",
 ]
 
 
@@ -319,6 +327,30 @@ def roundtrip(ctx, n):
     return stats
 
 
+# ------------------------------------------------------------------------------------------ close-code witnesses
+def close_code_witnesses():
+    """Replays, on the implementation, the two theorems saying that the close CODE (never an event) can depend on the
+    chunking: chunking_independent_uni_control_fin_refuted and chunking_independent_uni_connection_close_code_refuted.
+    Both deliveries close the connection and return no event, so this is recorded, not reported."""
+    enc = "023fe11fc0882f91d35d055c87a7c18562bb513964"     # encoder stream: capacity + three insertions
+    bad = "3fe21f"                                         # Set Dynamic Table Capacity above the maximum
+    hdr = "01060381d1d71011"                               # HEADERS referring to them (request pseudo-headers: refused)
+    pairs = {
+        "control-fin": ({"client": False, "dgram": True, "ops": [["s", 2, "000d0101", 1]]},
+                        {"client": False, "dgram": True, "ops": [["s", 2, "000d0101", 0], ["s", 2, "", 1]]}),
+        "encoder-unblock-then-garbage": (
+            {"client": True, "dgram": True, "ops": [["s", 0, hdr, 0], ["s", 7, enc + bad, 0]]},
+            {"client": True, "dgram": True, "ops": [["s", 0, hdr, 0], ["s", 7, enc, 0], ["s", 7, bad, 0]]}),
+    }
+    out = {}
+    for name, (whole, split) in pairs.items():
+        a, b = hc.run_impl(whole), hc.run_impl(split)
+        out[name] = {"whole_close": [int(c) for c in a.closes], "split_close": [int(c) for c in b.closes],
+                     "events": sum(len(e) for e in a.events) + sum(len(e) for e in b.events),
+                     "exception": repr(a.exn or b.exn) if (a.exn or b.exn) else None}
+    return out
+
+
 # ------------------------------------------------------------------------------------------ driver
 def run(ctx):
     _CACHE.clear()
@@ -347,7 +379,7 @@ def run(ctx):
         "(real pylsqpack encoder: static, literal, dynamic entries) randomly split and interleaved; distinct = distinct "
         "token encoding, non-trivial = at least two deliveries with events or state" % maxlen,
         {"exhaustive_splitting_cases": nex, "exhaustive_max_stream_len": maxlen, "roundtrip": rt,
-         "chunk_oracle": dict(STATS), "model_fix_flags": fixes, "defects_present": [p["id"] for p in present],
+         "chunk_oracle": dict(STATS), "close_code_witnesses": close_code_witnesses(), "model_fix_flags": fixes, "defects_present": [p["id"] for p in present],
          "probe_violations": nprobe})
     _CACHE.clear()
     return cov
